@@ -997,8 +997,70 @@ static bool rate_is_exact(long rate)
     return carry == (double)CHUNK;
 }
 
+// ------------------------------------------------------------------------------------------
+// stage rsxx: an EA-MUS (RSXX) song switches the synthesizer to its own volume model and chip count and locks the set-up while it
+// is loaded. Setters called in that state that report success must still make their getter return the value, and the value
+// must be in force once another file is loaded.
+// ------------------------------------------------------------------------------------------
+static void stage_rsxx(Case &c)
+{
+    Rng &r = c.rng;
+    OPN2_MIDIPlayer *d = NULL;
+    API("opn2_init", d = opn2_init(r.chance(0.5) ? 44100 : 8000));
+    if(!d) { c.violation("oracle:init-failed", "opn2_init returned NULL"); return; }
+    int rc = 0;
+    API("opn2_switchEmulator", rc = opn2_switchEmulator(d, r.chance(0.5) ? 0 : 2));
+    int chips0 = r.range(1, 6);
+    API("opn2_setNumChips", rc = opn2_setNumChips(d, chips0));
+    { ExactBuf b(default_bank()); API("opn2_openBankData", rc = opn2_openBankData(d, b.p, (long)b.n)); }
+    // RSXX image: byte 0 = offset (>= 0x5D) of the data, "rsxx}u" 16 bytes before it, then one SMF-like track without initial delta
+    int start = r.range(0x5D, 0x7F);
+    std::vector<uint8_t> f((size_t)start, 0);
+    f[0] = (uint8_t)start; memcpy(&f[(size_t)start - 0x10], "rsxx}u", 6);
+    SongOpts o1; o1.max_tracks = 1; o1.min_tracks = 1; o1.max_events = 10; o1.sysex_meta = false; o1.tempo_changes = false;
+    Song s1 = gen_song(r, o1);
+    std::vector<uint8_t> t = serialize_track(s1, s1.tracks[0]);
+    size_t skip = 0; while(skip < t.size() && (t[skip] & 0x80)) skip++; skip++;
+    f.insert(f.end(), t.begin() + (long)std::min(skip, t.size()), t.end());
+    { ExactBuf in(f); API("opn2_openData", rc = opn2_openData(d, in.p, (unsigned long)in.n)); }
+    if(rc != 0) { c.inconclusive = true; count("rsxx_image_not_accepted"); API("opn2_close", opn2_close(d)); return; }
+    if(r.chance(0.5)) { double nd = 0; API("opn2_tickEvents", nd = opn2_tickEvents(d, 0.05, 1e-4)); (void)nd; }
+    std::string hist = vfmt("chips %d, RSXX song loaded", chips0);
+    // setters with getters, called while the set-up is locked
+    int want_chips = r.range(1, 6); if(want_chips == chips0) want_chips = chips0 % 6 + 1;
+    int want_model = r.range(1, 5), want_mode = r.range(0, 2);
+    int r1 = -9; API("opn2_setNumChips", r1 = opn2_setNumChips(d, want_chips));
+    API("opn2_setVolumeRangeModel", opn2_setVolumeRangeModel(d, want_model));
+    int r3 = -9; API("opn2_setChannelAllocMode", opn2_setChannelAllocMode(d, want_mode)); (void)r3;
+    int g1 = 0; API("opn2_getNumChips", g1 = opn2_getNumChips(d));
+    int g3 = 0; API("opn2_getChannelAllocMode", g3 = opn2_getChannelAllocMode(d));
+    hist += vfmt(", opn2_setNumChips(%d) -> %d", want_chips, r1);
+    if(r1 == 0 && g1 != want_chips) c.violation("oracle:C18:getter-after-success:opn2_setNumChips:setup-locked", vfmt("opn2_setNumChips(%d) returned 0 but opn2_getNumChips says %d; %s", want_chips, g1, hist.c_str()));
+    if(r1 != 0 && g1 != chips0 && g1 != 2) c.violation("oracle:C18:failed-call-changed:opn2_setNumChips:setup-locked", vfmt("opn2_setNumChips(%d) returned %d and opn2_getNumChips went to %d; %s", want_chips, r1, g1, hist.c_str()));
+    if(g3 != want_mode) c.violation("oracle:C18:getter-after-success:opn2_setChannelAllocMode:setup-locked", vfmt("set %d, getter says %d; %s", want_mode, g3, hist.c_str()));
+    // the next file unlocks the set-up: the values are in force
+    SongOpts o2; o2.max_tracks = 2; o2.max_events = 8;
+    Song s2 = gen_song(r, o2);
+    std::vector<uint8_t> f2 = serialize_song(s2);
+    { ExactBuf in(f2); API("opn2_openData", rc = opn2_openData(d, in.p, (unsigned long)in.n)); }
+    if(rc != 0) { c.violation("oracle:C18:rejected-music-broke-instance:valid-file-refused-after-rsxx", opn2_errorInfo(d)); API("opn2_close", opn2_close(d)); return; }
+    int g1b = 0, obt = 0, gm = 0, g3b = 0;
+    API("opn2_getNumChips", g1b = opn2_getNumChips(d)); API("opn2_getNumChipsObtained", obt = opn2_getNumChipsObtained(d));
+    API("opn2_getVolumeRangeModel", gm = opn2_getVolumeRangeModel(d)); API("opn2_getChannelAllocMode", g3b = opn2_getChannelAllocMode(d));
+    if(r1 == 0 && (g1b != want_chips || obt != want_chips))
+        c.violation("oracle:C18:setting-lost-across:musicload:numChips:after-rsxx", vfmt("after the next file: opn2_getNumChips %d, obtained %d, set %d; %s", g1b, obt, want_chips, hist.c_str()));
+    if(gm != want_model) c.violation("oracle:C18:setting-lost-across:musicload:volumeModel:after-rsxx", vfmt("after the next file: volume model %d, set %d; %s", gm, want_model, hist.c_str()));
+    if(g3b != want_mode) c.violation("oracle:C18:setting-lost-across:musicload:allocMode:after-rsxx", vfmt("after the next file: alloc mode %d, set %d; %s", g3b, want_mode, hist.c_str()));
+    c.nontrivial = true;
+    cover(vfmt("rsxx|chips%d->%d|model%d|mode%d", chips0, want_chips, want_model, want_mode));
+    c.sig = "rsxx";
+    c.sample(std::string("{\"stage\":\"rsxx\",\"history\":") + jstr(hist) + "}");
+    API("opn2_close", opn2_close(d));
+}
+
 static void run_case(Case &c)
 {
+    if(g_w.stage == "rsxx") { stage_rsxx(c); return; }
     Rng &r = c.rng;
     static const long rates[] = {8000, 11025, 16000, 22050, 32000, 44100, 48000, 53267};
     long rate = r.pick(rates);
